@@ -15,8 +15,12 @@ RULE = ('generated selector-list TEXT S (1..3 complex selectors, all combinators
         'Per S: P = text emitted for selector.parse(unquote("S")); P2 = the same for P; E = the selector emitted for '
         '`S { x: y }`.  Oracle: P2 == P exactly (printing is a fixpoint of parse-then-print); E == P after normalising white '
         'space around combinators/commas/brackets, or - when the texts differ - E and P have the same canonical form '
-        '(escapes decoded, attribute quoting ignored, compound order ignored).  S rejected by selector.parse or as a rule is '
-        'skipped and counted.  Distinct non-trivial = distinct S accepted both ways and judged on both clauses.')
+        '(escapes decoded, attribute quoting ignored, compound order ignored; an identifier that is ill-formed as written, '
+        'e.g. `#1x`, never equals its well-formed spelling `#\\31 x`).  The fixpoint clause is judged whenever selector.parse '
+        'accepts S, the second clause only when S is accepted both ways; everything else is skipped and counted.  A failing S '
+        'is re-judged piece by piece (every identifier alone and behind a descendant combinator, bare combinator skeletons, '
+        'every simple selector) and the smallest failing piece names the signature.  Distinct non-trivial = distinct S '
+        'judged on at least one clause.')
 LEVEL_TEXT = ('Relational monitor: both clauses compare outputs of the real code with each other; the only model is the CSS '
               'selector grammar used as a fallback to decide whether two different texts are the same selector.')
 LEVEL_NOTE = ('Trusted: the canonical-form parser in monitors/lib/selgen.py (CSS Syntax level 3 identifier/escape/string rules); '
